@@ -100,12 +100,16 @@ def gen_schedule(rng):
             operands[k] = (", ".join(parts), shp)
     space = '"L1"'
     explicit = rng.random() < 0.12
+    offset_view = rng.choice([0, 1, 2]) if rng.random() < 0.2 else -1
     mts = []
     for k, (res, shp) in enumerate(operands):
         shp_s = "x".join(str(s) for s in shp)
         if explicit and k == 1:
             lay = ", ".join(f"[{s}] -> ({st})" for s, st in zip(shp, _rowmajor(shp)))
             mts.append(f"memref<{shp_s}x{ty}, #tsl.tsl<{lay}>, {space}>")
+        elif not explicit and k == offset_view:
+            # a window of a larger buffer: row-major strides and a non-zero offset (no layout of its own is asked for)
+            mts.append(f"memref<{shp_s}x{ty}, strided<[{', '.join(str(x) for x in _rowmajor(shp))}], offset: {rng.choice([16, 32, 64])}>, {space}>")
         else:
             mts.append(f"memref<{shp_s}x{ty}, {space}>")
     pats = ", ".join(f"affine_map<({dims}) -> ({res})>" for res, _ in operands)
